@@ -10,6 +10,10 @@ template<int VT> struct QT;
 template<> struct QT<0> { using T = int; static int mk(int v) { return v; } static int dec(const int &v) { return v; } };
 template<> struct QT<1> { using T = val::Counted; static val::Counted mk(int v) { return val::Counted(v); } static int dec(const val::Counted &v) { return v.val(); } };
 template<> struct QT<2> { using T = void; };
+// items constructed in place from SEVERAL arguments: push(n, v) makes a vector of n copies of v, n = 2 + v % 3
+// (a type with an initializer_list constructor: {n, v} would be a different item)
+template<> struct QT<3> { using T = std::vector<int>;
+    static int dec(const std::vector<int> &x) { if (x.size() < 2 || x.size() > 4) return -3; int v = x[0]; for (int e : x) if (e != v) return -3; return x.size() == (size_t)(2 + v % 3) ? v : -3; } };
 
 // observation codes: >=0 value (0 for void), 1000+id exception, -1 canceled, -2 not ready, -3 torn
 template<class F> int observe(F &f) {
@@ -17,6 +21,7 @@ template<class F> int observe(F &f) {
     try {
         if constexpr (std::is_void_v<typename F::value_type>) { f.value(); return 0; }
         else if constexpr (std::is_same_v<typename F::value_type, int>) return f.value();
+        else if constexpr (std::is_same_v<typename F::value_type, std::vector<int>>) return QT<3>::dec(f.value());
         else return f.value().val();
     }
     catch (const val::TestExc &e) { return 1000 + e.id; }
@@ -31,7 +36,7 @@ struct SeqProg { uint8_t vt; uint8_t limit; std::vector<Op> ops; };   // limit 0
 
 inline SeqProg decode_seq(hz::Reader &r, bool bounded) {
     SeqProg p;
-    p.vt = (uint8_t)r.mod(bounded ? 2 : 3);
+    p.vt = (uint8_t)r.mod(bounded ? 2 : 4);
     p.limit = bounded ? (uint8_t)(1 + r.mod(4)) : 0;
     unsigned n = 0;
     while (r.more() && n < 60) { Op o; o.code = (uint8_t)r.mod(10); o.a = r.u8(); p.ops.push_back(o); n++; }
@@ -39,7 +44,7 @@ inline SeqProg decode_seq(hz::Reader &r, bool bounded) {
 }
 static const char *seq_opn[] = {"push", "push", "push", "pop(future kept)", "pop(future kept)", "unblock_pop(e)", "unblock_push(e)/probe", "coroutine consumer", "size/empty probe", "push"};
 inline std::string describe_seq(const SeqProg &p) {
-    static const char *vt[] = {"int", "Counted", "void"};
+    static const char *vt[] = {"int", "Counted", "void", "vector<int> built in place by push(n, v)"};
     hz::Desc d;
     if (p.limit) d << "limited_queue<" << vt[p.vt] << ">(limit " << (unsigned)p.limit << ")"; else d << "queue<" << vt[p.vt] << ">";
     d << ", " << (unsigned)p.ops.size() << " ops:";
@@ -94,7 +99,8 @@ struct SeqRun {
         int v = VT == 2 ? 0 : next_value++;
         int push_idx = -1;
         // odd values are pushed from a variable of the caller (an lvalue): the queue takes a copy, the variable stays intact
-        if constexpr (VT != 2) if (v & 1) {
+        if constexpr (VT == 3) { q->push((std::size_t)(2 + v % 3), v); goto pushed; }
+        if constexpr (VT != 2 && VT != 3) if (v & 1) {
             typename QT<VT>::T x = QT<VT>::mk(v);
             if constexpr (BOUNDED) { push_idx = (int)pushes.size(); pushes.emplace_back(new PushF(q->push(x))); } else q->push(x);
             HZ_CHECK(QT<VT>::dec(x) == v, "push(lvalue) changed the caller's variable: it reads %d after pushing %d (moved from instead of copied)", QT<VT>::dec(x), v);
@@ -104,7 +110,7 @@ struct SeqRun {
             push_idx = (int)pushes.size();
             pushes.emplace_back(new PushF(q->push(QT<VT>::mk(v))));
         } else {
-            if constexpr (VT == 2) q->push(); else q->push(QT<VT>::mk(v));
+            if constexpr (VT == 2) q->push(); else if constexpr (VT != 3) q->push(QT<VT>::mk(v));
         }
         pushed:
         // model
@@ -213,7 +219,7 @@ inline void run_seq_t(const SeqProg &p) {
 
 inline void run_seq(const SeqProg &p) {
     if (p.limit) { if (p.vt == 0) run_seq_t<0, true>(p); else run_seq_t<1, true>(p); }
-    else { if (p.vt == 0) run_seq_t<0, false>(p); else if (p.vt == 1) run_seq_t<1, false>(p); else run_seq_t<2, false>(p); }
+    else { if (p.vt == 0) run_seq_t<0, false>(p); else if (p.vt == 1) run_seq_t<1, false>(p); else if (p.vt == 2) run_seq_t<2, false>(p); else run_seq_t<3, false>(p); }
 }
 
 // ================================================================ (b) threads on vrt
